@@ -44,3 +44,11 @@ pub assume_specification<T>[ core::mem::replace::<T> ](dest: &mut T, src: T) -> 
 
 pub assume_specification<T>[ bool::then_some::<T> ](b: bool, v: T) -> (r: Option<T>)
     ensures r == (if b { Some(v) } else { None });
+
+// `Vec::extend(Vec)` (rule R21 rewrites `X.extend(E)` on Vec<_> stacks to this helper): TRUSTED to append in order
+#[verifier::external_body]
+pub fn vec_extend<T>(v: &mut Vec<T>, w: Vec<T>)
+    ensures final(v)@ == old(v)@ + w@
+{
+    v.extend(w)
+}
